@@ -1089,6 +1089,21 @@ def run(chk):
         g = Gen(rnd)
         fam = "constant_tiles" if k % 4 == 3 else "branch_writers" if k % 6 == 1 else "hoisted_casts" if k % 6 == 2 else "mixed"
         progs.append((g.program(fam), rnd.randrange(1 << 30), False) + ((True,) if fam == "hoisted_casts" else ()))
+    # the same buffer written in both branches of one conditional: every combination of buffer, first use, nesting and
+    # what follows, independent of the seed (only the layouts are drawn)
+    for x in ("%b0", "%a0"):
+        for first_writes in (False, True):
+            for nested in (False, True):
+                for tail in ("use", "read", "none"):
+                    for cnd in (0, 1):
+                        g = Gen(rnd)
+                        w = lambda: ("dart" if nested else "gen", "%b1", "%a1", x, "F", g.newtag())
+                        first = w() if first_writes else ("gen", x, "%b1", "%a1", "F", g.newtag())
+                        cond = ("if", cnd, [w()], [w()])
+                        if nested:
+                            cond = ("for", [cond])
+                        tl = [("use", x, g.newtag())] if tail == "use" else [("gen", x, x, "%a1", "F", g.newtag())] if tail == "read" else []
+                        progs.append((((), [first, cond] + tl, rnd.choice([None, x if x != "%a0" else None])), rnd.randrange(1 << 30), False))
     chk.add_results("programs", pmap(case_prog, progs, chunks=4))
     lays = []
     shapes = [(4, 4), (2, 4), (4, 8), (8, 8), (4, 6), (16,), (2, 3, 4)]
